@@ -236,25 +236,40 @@ func runScenario(enc *json.Encoder, lw *shaping.LineWrapper, s wrapScenario) {
 			}
 		} else {
 			lw.Prepare(wc, s.text, shaping.NewSliceIterator(runs))
+			type heldLine struct {
+				wl   shaping.WrappedLine
+				done bool
+				w    int
+			}
+			var held []heldLine
+			abandoned := false
 			for i := 0; ; i++ {
 				w := s.width
 				if i%2 == 1 {
 					w += s.delta
 				}
 				wl, done := lw.WrapNextLine(w)
-				events = append(events, wLine{Ev: "L", Runs: outRunRecs(wl.Line), Truncated: wl.Truncated, Next: wl.NextLine, Done: done, W: w})
+				// a returned line stays valid until the next Prepare / WrapParagraph: the lines are kept and
+				// read only after the last one has been returned
+				held = append(held, heldLine{wl, done, w})
 				if done {
 					break
 				}
 				if s.abandonAfter > 0 && i+1 >= s.abandonAfter {
 					// the caller loses interest in the rest of this paragraph (the wrapper is re-used afterwards)
-					events = append(events, map[string]interface{}{"ev": "A"})
+					abandoned = true
 					break
 				}
 				if i > 4*len(s.text)+8 {
 					abnormal = "no termination"
 					break
 				}
+			}
+			for _, h := range held {
+				events = append(events, wLine{Ev: "L", Runs: outRunRecs(h.wl.Line), Truncated: h.wl.Truncated, Next: h.wl.NextLine, Done: h.done, W: h.w})
+			}
+			if abandoned {
+				events = append(events, map[string]interface{}{"ev": "A"})
 			}
 		}
 	}()
@@ -602,6 +617,64 @@ func wrapMain(args []string) error {
 				}
 			}
 		})
+		fmt.Printf("{\"scenarios\": %d, \"paragraphs\": %d}\n", count, paras)
+		return nil
+
+	case "long":
+		// wrap long <prefix> <shards>: paragraphs of many lines (more line runs than the wrapper's initial
+		// storage of 100): k words of one or two letters, one cluster per rune, one or two runs, a width of
+		// one or two words, every policy, both APIs, both paragraph directions
+		prefix := args[1]
+		shards, _ := strconv.Atoi(args[2])
+		sw := newShardWriter(prefix, shards)
+		defer sw.close()
+		lws := make([]*shaping.LineWrapper, shards)
+		for i := range lws {
+			lws[i] = &shaping.LineWrapper{}
+		}
+		rng := rand.New(rand.NewSource(seed*17 + 3))
+		count, paras := 0, 0
+		for _, k := range []int{102 + rng.Intn(6)} {
+			for _, wl := range []int{1} {
+				var text []rune
+				for i := 0; i < k; i++ {
+					for j := 0; j < wl; j++ {
+						text = append(text, 'a')
+					}
+					if i+1 < k {
+						text = append(text, ' ')
+					}
+				}
+				for _, nruns := range []int{1, 2} {
+					s := synth{text: text, glyphsPer: 1}
+					for i := range text {
+						s.clusters = append(s.clusters, i)
+					}
+					s.runSplit, s.dirs = []int{0}, []int{0}
+					if nruns == 2 {
+						s.runSplit, s.dirs = []int{0, (wl + 1) * (k / 2)}, []int{0, 0}
+					}
+					count++
+					sh := count % shards
+					unit := s.totalPx() / len(text)
+					for pdir := 0; pdir <= 0; pdir++ {
+						for pol := 0; pol <= 2; pol++ {
+							for _, api := range []string{"para", "next"} {
+								for _, words := range []int{1} {
+									s := s
+									w := unit * (words*(wl+1) - 1)
+									sc := wrapScenario{id: s.key(), cls: "long", text: s.text, build: s.build, lvls: levelsFor(s.dirs, pdir),
+										cfg: wCfg{Pdir: pdir, Pol: pol, Trunc: 0, Tadv: 64, Tdir: pdir}, width: w, api: api}
+									sc.syn = &s
+									runScenario(sw.encs[sh], lws[sh], sc)
+									paras++
+								}
+							}
+						}
+					}
+				}
+			}
+		}
 		fmt.Printf("{\"scenarios\": %d, \"paragraphs\": %d}\n", count, paras)
 		return nil
 
